@@ -78,6 +78,12 @@ b("audit_2_released_future_reports_disconnect", "a pending future released by a 
     "                        Poll::Ready(Err(if acquire_internal(this.internal).send_count != 0 { SendError::ReceiveClosed } else { SendError::Closed }))\n                    }\n                }\n                Poll::Pending => {", 1),
    ("src/future.rs", "                            Poll::Ready(Err(ReceiveError::Closed))\n                        }\n                    }\n                    Poll::Pending => {",
     "                            Poll::Ready(Err(if acquire_internal(this.internal).recv_count != 0 { ReceiveError::SendClosed } else { ReceiveError::Closed }))\n                        }\n                    }\n                    Poll::Pending => {", 1)])
+b("audit_3_drain_walks_wait_list_directly", "drain_into takes the waiting senders by draining the wait list itself instead of calling next_send (no helper method, hence no helper hook, is involved)",
+  [("src/lib.rs", "            while let Some(p) = internal.next_send() {\n                // Safety: it's safe to receive from owned signal once\n                unsafe { vec.push(p.recv()) }\n            }\n            Ok(required_cap)",
+    "            if !internal.recv_blocking {\n                for p in internal.wait_list.drain(..) {\n                    // Safety: it's safe to receive from owned signal once\n                    unsafe { vec.push(p.recv()) }\n                }\n            }\n            Ok(required_cap)", 1)])
+b("audit_3b_close_terminates_inline", "close() releases the waiters itself instead of calling terminate_signals",
+  [("src/lib.rs", "            internal.terminate_signals();\n            internal.queue.clear();\n            Ok(())",
+    "            for t in internal.wait_list.iter() {\n                // Safety: it's safe to terminate owned signal once\n                unsafe { t.terminate() }\n            }\n            internal.wait_list.clear();\n            internal.queue.clear();\n            Ok(())", 1)])
 b("audit_4_panic_wording", "the documented panics use another wording",
   [("src/future.rs", 'panic!("polled after result is already returned")', 'panic!("future polled again after it completed")', 2)])
 b("audit_6_buffer_discarded_with_last_receiver", "the buffered values are destroyed as soon as the last receiver is gone (nobody can receive them any more)",
